@@ -29,7 +29,8 @@
 //	rxb <id>     the packet of message <id> arrives BARE (no LpPacket) => like rx
 //	Every frame arrives in the receiving transport's reusable receive buffer, which the harness
 //	overwrites as soon as handleIncomingFrame returns; renderings include the name the forwarder
-//	works with (pkt.Name): d=<pkthex>/<tokhex|->/<mark|->/<namehex>@<threads>.
+//	works with (pkt.Name): d=<pkthex>/<tokhex|->/<mark|->/<namehex>@<threads>!<1|0>  (1 = the decoded
+//	packet pkt.L3 lives in the memory of pkt.Raw).
 //	end   => ps=<partial messages held> [h=<pkthex>/<tokhex|->/<mark|->]*  every retained packet,
 //	         rendered again at the end of the history
 package c10
@@ -40,6 +41,7 @@ import (
 	"strings"
 	"testing"
 	"time"
+	"unsafe"
 
 	defn "github.com/named-data/ndnd/fw/defn"
 	"github.com/named-data/ndnd/fw/dispatch"
@@ -79,6 +81,33 @@ func render(p *defn.Pkt) string {
 	return common.Hex(p.Raw) + "/" + common.Hex(p.PitToken) + "/" + mark + "/" + name
 }
 
+// aliasFlag: "1" when the decoded packet the forwarder works on (pkt.L3: it decrements the HopLimit
+// and reads names through it) lives in the memory of pkt.Raw, the bytes that are sent on — so that
+// edits through L3 reach the wire; "0" when the two are detached copies.
+func aliasFlag(p *defn.Pkt) string {
+	if p.L3 == nil || len(p.Raw) == 0 {
+		return "1"
+	}
+	var name enc.Name
+	if p.L3.Interest != nil {
+		name = p.L3.Interest.NameV
+	} else if p.L3.Data != nil {
+		name = p.L3.Data.NameV
+	}
+	lo := uintptr(unsafe.Pointer(&p.Raw[0]))
+	hi := lo + uintptr(len(p.Raw))
+	for _, c := range name {
+		if len(c.Val) == 0 {
+			continue
+		}
+		a := uintptr(unsafe.Pointer(&c.Val[0]))
+		if a < lo || a >= hi {
+			return "0"
+		}
+	}
+	return "1"
+}
+
 // one QueueInterest/QueueData call: which thread got which packet
 type queued struct {
 	thread int
@@ -105,7 +134,7 @@ func collect() {
 		threads[c.pkt] = append(threads[c.pkt], strconv.Itoa(c.thread))
 	}
 	for _, p := range order {
-		delivered = append(delivered, "d="+render(p)+"@"+strings.Join(threads[p], ","))
+		delivered = append(delivered, "d="+render(p)+"@"+strings.Join(threads[p], ",")+"!"+aliasFlag(p))
 		held = append(held, p)
 	}
 	calls = calls[:0]
